@@ -968,6 +968,10 @@ fn spin_to(sim: &mut Sim<'_>, h: usize, want: u16) -> bool {
         let Some(Ok(u)) = sim.d.once(h, UdpSocket::bind((wild, 0))) else { return false };
         let p = sim.d.on(h, || u.local_addr()).map(|a| a.port()).unwrap_or(0);
         sim.d.on(h, || drop(u));
+        if !(EPH_LO..=EPH_HI).contains(&p) {
+            sim.fail("EphemeralOutOfRange", format!("a bind to port 0 on host {h} (one of the many that rotate the allocator once round its range) was given port {p}, outside {EPH_LO}..={EPH_HI}"));
+            return false;
+        }
         if next_port(p) == want {
             return true;
         }
